@@ -4,7 +4,7 @@ from harness.common import Case, hx, unhx, Fields
 from harness import gen as G
 from harness.props.c08 import param_validation  # noqa
 
-KINDS = 'ms'
+KINDS = 'gms'
 RULE = ('keys across [1,n-1], messages of 0..70000 characters incl. non-ASCII and the 252/253 byte boundary, compressed and uncompressed, '
         'mainnet and testnet: digest vs Bitcoin Core MessageHash; sign (header search replayed through the model with the (r,s) python-ecdsa '
         'produced), the signature must verify against the signer address under the Spec recovery and the recovered key must be d*G (all four '
@@ -57,6 +57,8 @@ def cases(ctx):
         nt = len(b) >= 253 or any(ord(c) > 127 for c in m)
         ctx.count('digest')
         yield Case(f'msg_digest {hx(mg)} {hx(b)}', 'ms', nontrivial=nt, tag='digest', spec=lambda ans, b=b: (f's:msg_digest {hx(b)}', ans))
+        if len(b) <= 1000:
+            yield Case(f'msg_prefix {hx(b)}', 'g', nontrivial=nt, tag='gen-prefix')      # the generated (translated) add_magic_prefix
     triples = []
     small = [m for m in msgs if len(m) <= 300]
     keys = [1, 2, N - 1] + [rng.randrange(1, N) for _ in range(ctx.n(10, 600))]
@@ -235,6 +237,8 @@ def impl(op, a, ctx):
     from bitcoinutils.keys import PrivateKey, PublicKey
     from bitcoinutils.utils import add_magic_prefix
     F = Fields(a)
+    if op == 'msg_prefix':
+        return 'ok ' + hx(add_magic_prefix(F.bytes().decode()))
     if op == 'msg_digest':
         F.bytes(); m = F.bytes().decode()
         return 'ok ' + hashlib.sha256(hashlib.sha256(add_magic_prefix(m)).digest()).hexdigest()
